@@ -253,4 +253,91 @@ def hasEscape (gs : List GlobalVar) (pkg name func : String) (m : Bool) : Bool :
 def hasVar (gs : List GlobalVar) (pkg name : String) (k : VarKind) : Bool :=
   gs.any (fun g => g.pkg == pkg && g.name == name && g.kind == k)
 
+/-! ### receiver state written on read paths; object pools (round 14) -/
+
+inductive FieldWriteHow where
+  | assign   -- recv.f = …
+  | elem     -- recv.f[k] = …   (map store, slice element)
+  | field    -- recv.f.g = …
+  | append   -- recv.f = append(…)
+  | delete   -- delete(recv.f, k), clear(recv.f)
+  | incdec   -- recv.f++
+  deriving DecidableEq, Repr
+
+/-- a write a method makes to the state of its receiver (extract/globals_fields.go).  `api = .read`: the method is a read API
+    by name or reachable from one through calls (by bare name, over-approximating); `shared`: the receiver type is long-lived
+    (handed the transaction on every call, built for sharing, has registration methods, or reachable from such a type through
+    field types) and no read path constructs it — one object for all callers -/
+structure FieldWrite where
+  pkg : String
+  typ : String
+  method : String
+  field : String
+  how : FieldWriteHow
+  api : ApiKind
+  shared : Bool
+  underLock : Bool
+  deriving Repr
+
+/-- reviewed exceptions (pkg, type, method, field, reason): none on the current tree -/
+def reviewedFieldWrites : List (String × String × String × String × String) := []
+
+def FieldWrite.ok (w : FieldWrite) : Bool :=
+  w.api != .read || !w.shared || w.underLock ||
+    reviewedFieldWrites.any (fun e => e.1 == w.pkg && e.2.1 == w.typ && e.2.2.1 == w.method && e.2.2.2.1 == w.field)
+
+/-- no read API writes (outside a lock) the state of a shared long-lived object it is a method of -/
+def readApisDoNotWriteReceiverState (ws : List FieldWrite) : Bool := ws.all FieldWrite.ok
+
+def hasFieldWrite (ws : List FieldWrite) (pkg typ method field : String) (h : FieldWriteHow) (a : ApiKind) (shared : Bool) : Bool :=
+  ws.any (fun w => w.pkg == pkg && w.typ == typ && w.method == method && w.field == field && w.how == h && w.api == a &&
+    w.shared == shared)
+
+structure PoolDecl where
+  pkg : String
+  name : String
+  decl : String    -- "var" | "field"
+  deriving Repr
+
+inductive PoolArgKind where
+  | localFromGet   -- a local of the function, assigned from <pool>.Get()
+  | receiver       -- the method's receiver: whoever called the method still holds it
+  | field          -- x.f: the object x keeps pointing at what was released
+  | param          -- the caller still holds it
+  | other
+  deriving DecidableEq, Repr
+
+/-- one `<pool>.Put(arg)` -/
+structure PoolPut where
+  pkg : String
+  pool : String
+  func : String
+  arg : String
+  argKind : PoolArgKind
+  deferred : Bool
+  usedAfter : Bool   -- (non-deferred Put) the object is mentioned after the Put
+  escapes : String   -- "" or how the local leaves the function (returned / stored / captured / sent)
+  deriving Repr
+
+/-- a package-level slice-of-pointers / channel variable written outside init(): a hand-made pool -/
+structure FreeList where
+  pkg : String
+  name : String
+  typ : String
+  func : String
+  deriving Repr
+
+/-- the releasing function owned the object exclusively: it took it from the pool itself, kept it in a local, handed it to
+    nobody who keeps it, and gives it back when it returns (or does not touch it after giving it back) -/
+def PoolPut.ok (p : PoolPut) : Bool :=
+  p.argKind == .localFromGet && p.escapes == "" && (p.deferred || !p.usedAfter)
+
+def noPooledObjectOutlivesRelease (puts : List PoolPut) (frees : List FreeList) : Bool :=
+  puts.all PoolPut.ok && frees.isEmpty
+
+def hasPoolPut (ps : List PoolPut) (pkg pool func : String) : Bool :=
+  ps.any (fun p => p.pkg == pkg && p.pool == pool && p.func == func && p.argKind == .localFromGet && p.deferred)
+
+def hasPool (ps : List PoolDecl) (pkg name : String) : Bool := ps.any (fun p => p.pkg == pkg && p.name == name)
+
 end StorageModel.C18
